@@ -4,8 +4,7 @@
    parked at), whether every lock-step expectation held (which threads were parked / blocked in
    flock(2) after each step), the two HTTP outcomes and the directory at quiescence.
    model_b: the schedule is a maximal run of the model with the same labels and the same outcome.
-   spec_b : the contract of volume.go on the observed outcome.
-   known_F7_b: the narrow trigger of finding F7. *)
+   spec_b : the contract of volume.go on the observed outcome. *)
 From Coq Require Import List Bool Arith String NArith.
 From AV Require Import model.C04_race.
 Import ListNotations.
@@ -13,7 +12,6 @@ Local Open Scope string_scope.
 
 Record case := {
   r_prior : prior; r_put : bool; r_rm : bool;
-  r_fix7 : bool;                         (* the code under test has fixes/F7.diff applied (validation runs only) *)
   r_sched : list (tid * string);
   r_sync : bool;
   r_a_ok : bool;                         (* PUT / TOUCH answered 2xx *)
@@ -46,7 +44,7 @@ Definition multiset_eqb (a b : list (cont * age)) : bool :=
 
 Definition model_b (c : case) : bool :=
   r_sync c &&
-  match replay (init7 (r_prior c) (r_put c) (r_rm c) (r_fix7 c)) (r_sched c) with
+  match replay (init (r_prior c) (r_put c) (r_rm c)) (r_sched c) with
   | None => false
   | Some s =>
     match succs s with
@@ -69,24 +67,14 @@ Definition spec_b (c : case) : bool :=
   (negb (r_a_ok c) || match r_path c with Some (Good, _) => true | Some (Corrupt, _) => negb (r_put c) | None => false end) &&
   (match r_prior c with PFreshGood => match r_path c with Some (Good, _) => true | _ => false end | _ => true end).
 
-(* F7 trigger: a PUT over a corrupt old copy where Trash had passed its stat before WriteBlock's rename
-   and moved/unlinked the path afterwards *)
 Fixpoint index_of (t : tid) (l : string) (sch : list (tid * string)) (i : nat) : option nat :=
   match sch with
   | [] => None
   | (t', l') :: r => if tid_eqb t t' && String.eqb l l' then Some i else index_of t l r (S i)
   end.
-Definition known_F7_b (c : case) : bool :=
-  negb (r_fix7 c) && r_put c && match r_prior c with POldCorrupt => true | _ => false end &&
-  match index_of TB "Trash:v.os.Stat" (r_sched c) 0,
-        index_of TA "WriteBlock:v.os.Rename" (r_sched c) 0,
-        index_of TB (if r_rm c then "Trash:v.os.Remove" else "Trash:v.os.Rename") (r_sched c) 0 with
-  | Some a, Some b, Some d => Nat.ltb a b && Nat.ltb b d
-  | _, _, _ => false
-  end.
 
 Definition check_case (c : case) : N :=
-  ((if model_b c then 0 else 1) + (if spec_b c then 0 else if known_F7_b c then 8 else 2))%N.
+  ((if model_b c then 0 else 1) + (if spec_b c then 0 else 2))%N.
 
 Fixpoint failing_from (i : N) (cs : list case) : list (N * N) :=
   match cs with
